@@ -435,6 +435,12 @@ func createEvidenceReactor(config *cfg.Config, dbProvider DBProvider,
 	if err != nil {
 		return nil, nil, err
 	}
+	// The handshake applies a block that was stored but not yet executed when the
+	// node stopped with a stub evidence pool: the evidence of the last block may
+	// still be pending here and lack its committed marker.
+	if block := blockStore.LoadBlock(evidencePool.State().LastBlockHeight); block != nil {
+		evidencePool.MarkCommitted(block.Evidence.Evidence)
+	}
 	evidenceReactor := evidence.NewReactor(evidencePool)
 	evidenceReactor.SetLogger(evidenceLogger)
 	return evidenceReactor, evidencePool, nil
